@@ -285,8 +285,8 @@ def resp_masks(schema, tier):
               "contents (<= 8 bytes each), booleans, COSE coordinates symbolic; every optional integer member alone with its value "
               "symbolic over a whole head class; status byte / empty-map collapse / per-variant arm through Response::serialize::<N> "
               "(N <= 64) for ClientPin, LargeBlobs, MakeCredential, CredentialManagement, GetInfo, Reset, Selection, Vendor",
-    "out": "GetAssertion / GetNextAssertion THROUGH Response::serialize (the enum move makes CBMC lose the Option discriminants of the "
-           "1.5 KB response: no answer in 10 min; their bodies are checked through cbor_serialize, the call the shared arm makes); "
+    "out": "GetAssertion / GetNextAssertion through Response::serialize only for the listed member sets (5 min and 11 GB each; the response is "
+           "built in place inside the enum, a moved response makes CBMC lose its Option discriminants); "
            "member contents longer than 8 bytes (C17/C12 cover sizes); arbitrary subsets beyond singletons/pairs",
 })
 def plan_c02(tier, seed):
@@ -324,11 +324,16 @@ def plan_c02(tier, seed):
                                        "%s response with %s symbolic over the whole %d-byte-argument class" % (kind, f.rust, cls), via="direct"))
     # framing through Response::serialize: status byte, per-variant arm, empty-map collapse
     FRAMES = [("ClientPin", []), ("ClientPin", ["retries", "pin_token"]), ("LargeBlobs", []), ("MakeCredential", []), ("MakeCredential", ["ep_att"]),
-              ("CredentialManagement", []), ("CredentialManagement", ["total_rps", "rp_id_hash"]), ("GetInfo", []), ("GetInfo", ["max_msg_size"])]
+              ("CredentialManagement", []), ("CredentialManagement", ["total_rps", "rp_id_hash"]), ("GetInfo", []), ("GetInfo", ["max_msg_size"]),
+              # GetNextAssertion must encode exactly like GetAssertion: the same instance through both variants (5 min / 11 GB each)
+              ("GetAssertion", ["number_of_credentials", "user_selected"]), ("GetNextAssertion", ["number_of_credentials", "user_selected"])]
+    if tier == T:
+        FRAMES += [("GetAssertion", []), ("GetNextAssertion", []), ("GetNextAssertion", ["user"]), ("GetNextAssertion", ["large_blob_key", "ep_att"]),
+                   ("GetAssertion", ["att_stmt"]), ("GetNextAssertion", ["att_stmt"])]
     for kind, pres in FRAMES:
         schema = spec.RESPONSES[kind]
         var = Variation(present={schema.name: pres}, default_present="all", intclass=0, maxlen=8, text="ascii", seed=seed)
-        add(encode_harness("c02_frame_%s_%s" % (schema.name, "_".join(pres) or "none"), "C02", kind, var,
+        add(encode_harness("c02_frame_%s_%s" % (schema.name if kind != "GetNextAssertion" else "gna", "_".join(pres) or "none"), "C02", kind, var,
                            "%s through Response::serialize: 0x00 + body (status byte alone when no member is set); members: %s"
                            % (kind, ",".join(pres) or "none"), via="response"), configs="first")
     write_gen("C02", hs, prelude=C02_PRELUDE)
@@ -1650,7 +1655,7 @@ def plan_c17(tier, seed):
         if tier == Q:
             caps = [c for c in caps if c in (1, 2, size - 1, size, size + 1, 64)]
         for N in caps:
-            fills = [0, 1, N // 2, N] if tier == T else [0, N]
+            fills = [0, 1, N // 2, N] if tier == T else ([0, 1, N] if N in (size + 1, 64) else [0, N])
             for pf in sorted(set(fills)):
                 if pf > N:
                     continue
